@@ -1,6 +1,6 @@
 (** C10 — property theorems: statements (as printed by Coq) closed by [exact]. *)
 From Coq Require Import ZArith List Bool.
-From KV Require Import C10.Model C10.ProofsBase C10.ProofsLive C10.ProofsErr C10.ProofsGap C10.ProofsResume C10.ProofsExamples.
+From KV Require Import C10.Model C10.ProofsBase C10.ProofsLive C10.ProofsErr C10.ProofsGap C10.ProofsResume C10.ProofsExamples C10.ProofsNotAdvancing.
 Import ListNotations.
 Local Open Scope Z_scope.
 
@@ -185,3 +185,30 @@ Theorem resume_offset_midchunk_refuted :
          rev (map out_value (l_out s)) = [0; 1; -1; -1; -1; -1; -1; 7; -1; -1] /\
          map it_index (l_skipped s) = [6; 5; 4; 3; 2] /\ d_status (st_d s) = DEnded.
 Proof. exact @resume_offset_midchunk_refuted. Qed.
+
+Theorem error_stops_sound_in_any_playback_state :
+  forall (s : state) (p : pstate) (n : nat),
+       sh_err s = true ->
+       a_where s = OnTrack ->
+       a_rem s = 0%nat ->
+       a_psm s = p ->
+       let s' := a_proc s n in
+       a_psm s' = Stopped /\
+       sh_state s' = 6 /\
+       l_out s' = zeros n ++ l_out s /\
+       l_obs s' = mones n ++ l_obs s /\ sh_err_slot s' = sh_err_slot s /\ a_where (a_start s') = Unloaded.
+Proof. exact @error_stops_sound_in_any_playback_state. Qed.
+
+Theorem error_while_paused_example :
+  let cfg := cfg_fault [2] [] None in
+       let s1 := run cfg (Ds 4 ++ [AStart; AProc 1; AFrame; GPause 0; AStart; AProc 1] ++ Ds 3) (init cfg) in
+       let s2 := run cfg [AStart; AProc 2] s1 in
+       let s3 := run cfg [AStart; GPopError; GPopError] s2 in
+       (a_psm s1 = Paused /\
+        sh_state s1 = 2 /\
+        is_advancing (a_psm s1) = false /\
+        sh_err s1 = true /\
+        a_where s1 = OnTrack /\ a_rem s1 = 0%nat /\ l_raised s1 = [1002] /\ d_status (st_d s1) = DEnded) /\
+       (a_psm s2 = Stopped /\ sh_state s2 = 6 /\ a_where s2 = OnTrack) /\
+       a_where s3 = Unloaded /\ l_popped s3 = [1002] /\ rev (map out_value (l_out s3)) = [0; -1; -1; -1].
+Proof. exact @error_while_paused_example. Qed.
